@@ -1,19 +1,16 @@
 #!/bin/bash
-# verify_seed.sh <seed-dir> <demo-dest-relative-dir> <go test args...>
-# In a fresh scratch worktree: build + existing tests with the patch, demo with and without the patch.
-set -u
-SEED=$1; shift
+# verify_seed.sh <seed-out-dir> <demo-src-file-or-dir> <dest-dir-in-worktree> <go test package path>
+# In a fresh scratch worktree: demo without the patch, then build + existing tests + demo with the patch.
+SEED=$1; DEMO=$2; DEST=$3; PKG=$4
 export GOFLAGS=-mod=mod GOPROXY=off GOSUMDB=off
-WT=$(mktemp -d /tmp/verify-seed-XXXX)
+WT=$(mktemp -d /tmp/verify-seed-XXXX); rmdir "$WT"
 git -C /repo worktree add -q --detach "$WT" HEAD || exit 2
 cd "$WT"
+mkdir -p "$DEST"; cp -r $DEMO "$DEST"/
 PKGS="./internal/... ./pkg/cafs/ ./pkg/context/ ./pkg/errors/ ./pkg/filetracker/ ./pkg/fuse/ ./pkg/metrics/ ./pkg/model/ ./pkg/sidecar/... ./pkg/storage/localfs/ ./pkg/web/ ./pkg/wal/"
-echo "== demo WITHOUT the change"
-"$@" > /tmp/verify-demo-without.log 2>&1; echo "demo exit (unchanged): $?"; tail -3 /tmp/verify-demo-without.log
-git apply --whitespace=nowarn "$SEED/patch.diff" || { echo "PATCH DOES NOT APPLY"; }
-echo "== build"; go build ./... && echo build ok
-echo "== existing tests with the change"
-go test -vet=off -count=1 $PKGS 2>&1 | grep -v "^ok\|no test files" | grep -v "TestWAL_GetToken\|could not find default credentials\|dialing:\|Error Trace\|Error:\|Test:\|wal_test.go\|^FAIL$\|FAIL.*pkg/wal\|^\s*$\|---" | head -10
-echo "== demo WITH the change"
-"$@" > /tmp/verify-demo-with.log 2>&1; echo "demo exit (changed): $?"; tail -5 /tmp/verify-demo-with.log
+go test -vet=off -count=1 $PKG > /tmp/verify-without.log 2>&1; echo "demo exit WITHOUT change: $? ($(tail -1 /tmp/verify-without.log))"
+git apply --whitespace=nowarn "$SEED/patch.diff" || echo "PATCH DOES NOT APPLY"
+go build ./... && echo "build ok"
+go test -vet=off -count=1 $PKGS 2>&1 | grep "^FAIL\|^---\|^ok" | grep -v "^ok" | grep -v "TestWAL_GetToken\|pkg/wal" | head; echo "(existing tests done; only pkg/wal TestWAL_GetToken may fail)"
+go test -vet=off -count=1 $PKG > /tmp/verify-with.log 2>&1; echo "demo exit WITH change: $? ($(grep -m3 -- '--- FAIL\|FAIL' /tmp/verify-with.log | tr '\n' ' '))"
 cd /; git -C /repo worktree remove --force "$WT"
